@@ -27,6 +27,7 @@ import (
 	"flag"
 	"fmt"
 	"os"
+	"path/filepath"
 	"strings"
 
 	"verif/internal/guardalloc"
@@ -179,6 +180,7 @@ func main() {
 	fault := flag.Bool("fault", false, "guard allocator in fault mode (mmap + mprotect): any use after free kills the process")
 	r := h.Start("C11")
 	defer r.Finish()
+	respgen.ScratchDir = scratchDir(r)
 	env, err := respgen.NewEnv(guardalloc.Options{Fault: *fault, QuarantineBytes: 64 << 20})
 	if err != nil {
 		r.Inconclusive("cannot set up the scratch directory: " + err.Error())
@@ -327,6 +329,13 @@ func (w *worker) stats() {
 	for _, p := range w.ga.SitePairs() {
 		r.Seen("alloc_site|free_site", p)
 	}
+}
+
+func scratchDir(r *h.Run) string {
+	if r.Replay != "" {
+		return filepath.Join(r.Out, "scratch-replay")
+	}
+	return filepath.Join(r.Out, fmt.Sprintf("scratch-%s-%d", r.Phase, r.Shard))
 }
 
 func firstLine(s string) string {
